@@ -74,16 +74,15 @@ impl CReq {
     }
 }
 
-fn flags(v: &mut Value, r: &Value) {
+fn flags(v: &mut Value, r: &Value, variety: usize) {
     let o = v.as_object_mut().unwrap();
-    if r["more"].as_bool().unwrap_or(false) {
-        o.insert("more".into(), json!(true));
-    }
-    if r["oneway"].as_bool().unwrap_or(false) {
-        o.insert("oneway".into(), json!(true));
-    }
-    if r["upgrade"].as_bool().unwrap_or(false) {
-        o.insert("upgrade".into(), json!(true));
+    // a flag that is not set is left out or, for some requests, said explicitly: "oneway": false means the same as no member
+    for (k, name) in ["more", "oneway", "upgrade"].iter().enumerate() {
+        if r[*name].as_bool().unwrap_or(false) {
+            o.insert((*name).into(), json!(true));
+        } else if (variety + k) % 4 == 0 {
+            o.insert((*name).into(), json!(false));
+        }
     }
 }
 
@@ -102,7 +101,7 @@ pub fn concretise(r: &Value, i: usize, salt: &str, pad: usize) -> CReq {
         if let Some(p) = params {
             v.as_object_mut().unwrap().insert("parameters".into(), p);
         }
-        flags(&mut v, r);
+        flags(&mut v, r, i + salt.bytes().map(|b| b as usize).sum::<usize>());
         (method, serde_json::to_vec(&v).unwrap())
     };
     let (method, bytes): (String, Vec<u8>) = match kind.as_str() {
